@@ -183,3 +183,50 @@ Definition run_1805 (input impl : sx) : sx :=
                                else if result_reinterpreted view reqs then [sig k_reinterp] else []) ++ [flag k_walkok false]))
     end
   end.
+
+(* kind 1806: the transfer itself.  input = (view (req ...) ((alias first) ...)): the view written
+   to disk (aliases = further names of the symlink inode at [first]; in the view they are symlinks
+   with the same target), sent through NewFS -> NewFilterFS(FollowPaths) -> Send / Receive.
+   impl = (#0 copy-view) | (#1 msg) | (#2).
+   Specification (transfer clause of C18): every symlink chroot_resolve traverses for every
+   request, and the entry it reaches, exists in the copy with the same type, the same link
+   target and the same bytes - so every request resolves in the copy as in the source. *)
+Definition k_differs : bytes := Eval compute in bs "differs-in-copy".
+Definition same_entry (a b : node) : bool :=
+  Bool.eqb (node_is_dir a) (node_is_dir b) && Bool.eqb (node_is_symlink a) (node_is_symlink b) &&
+  (if node_is_symlink a then bytes_eqb (node_link a) (node_link b) else true) &&
+  (if node_is_dir a || node_is_symlink a then true else bytes_eqb (node_content a) (node_content b)).
+Definition in_copy (view copy : list node) (x : list bytes) : bool :=
+  match lookup view x, lookup copy x with
+  | Some a, Some b => same_entry a b
+  | None, _ => true
+  | Some _, None => false
+  end.
+
+Definition run_1806 (input impl : sx) : sx :=
+  match input with
+  | SL [v; rs; _] =>
+    match dec_case (SL [v; rs]) with
+    | None => v_malformed
+    | Some (view, reqs) =>
+      let fuel := fuel_bound view reqs in
+      let s :=
+        if negb (no_revisit go_match view fuel reqs) then [sig k_revisit]
+        else if negb (lexical_safe view reqs) then [sig k_lexical]
+        else if negb (wild_last_only reqs) then [sig k_wildmid]
+        else if negb (links_literal view) then [sig k_linkglob]
+        else if result_reinterpreted view reqs then [sig k_reinterp]
+        else [] in
+      match impl with
+      | SL [SN 0; cv] =>
+        match dec_view cv with
+        | None => v_malformed
+        | Some copy =>
+          let bad := filter (fun x => negb (in_copy view copy x)) (needs view reqs) in
+          verdict impl impl (is_nil bad) (SL (s ++ [SL (SB k_differs :: map (fun q => SB (key q)) bad)]))
+        end
+      | _ => v_specfail (SL []) (SL (s ++ [flag k_walkok false]))
+      end
+    end
+  | _ => v_malformed
+  end.
